@@ -148,6 +148,11 @@ def check(ctx):
     R.compare(ctx, hrows, lambda d: (flag(d), [t for t in toks(d.get('trace')) if t[:1] in ('E', 'C')][-1:]), 'C07 an error of the source crosses the hand-off operators (also under a cancelled subscription context)',
               nontrivial=lambda c, gd: True, max_report=2)
 
+    # observers built with nil callbacks under a panicking Next callback (RoModel/ObsNil.lean): callbacks, dropped hook, unhandled hook
+    rows = R.run_kind(ctx, 'nilobs', shards=2)
+    R.compare(ctx, rows, proj_all, 'C07 observer with nil callbacks: what the callbacks, the dropped-notification hook and the unhandled-error hook saw',
+              nontrivial=lambda c, gd: True, max_report=2)
+
     rows = R.run_kind(ctx, 'fault')
     R.compare(ctx, rows, proj_all, 'C07 fault injection (trace, drops, unhandled hook, escaped panics, teardown count, usability)',
               oracle=oracle_fault, nontrivial=nontrivial_fault)
